@@ -77,6 +77,32 @@ func (C08) Gen(r *simrt.RNG, tier string) core.Case {
 			t.In = append(t.In, s)
 		}
 	}
+	// an interface-typed parameter, satisfiable through a converter that makes an
+	// implementing type (the planner must still demand that converter's own input)
+	ifaceImpl := -1
+	if r.Chance(1, 5) {
+		j := r.Intn(len(t.In))
+		I := world.IfaceBase + r.Intn(3)
+		var impls []int
+		for _, x := range world.Implementors(I) {
+			if x < world.NumStruct {
+				impls = append(impls, x)
+			}
+		}
+		clash := false
+		for _, s := range t.In {
+			if world.Implements(s.Type, I) {
+				clash = true
+			}
+		}
+		if len(impls) > 0 && !clash {
+			ifaceImpl = impls[r.Intn(len(impls))]
+			t.In[j].Type = I
+			if t.In[j].Name != "" {
+				t.In[j].Name = []string{"alpha", "beta"}[r.Intn(2)]
+			}
+		}
+	}
 	no := r.Intn(3)
 	for i := 0; i < no; i++ {
 		ty := perm[(nt+i)%world.NumStruct]
@@ -88,6 +114,16 @@ func (C08) Gen(r *simrt.RNG, tier string) core.Case {
 		}
 		if !dup {
 			t.Out = append(t.Out, world.Slot{Label: world.Label{Type: ty}})
+		}
+	}
+	if len(t.Out) > 0 && r.Chance(1, 4) {
+		// outputs declared as the fields of a result struct: the output filter judges
+		// the fields, not the struct
+		t.OutForm = []int{world.FormStruct, world.FormPtrStruct}[r.Intn(2)]
+		for i := range t.Out {
+			if r.Bool() {
+				t.Out[i].Name = nameFor(t.Out[i].Type)
+			}
 		}
 	}
 	w.Parties = append(w.Parties, t)
@@ -120,6 +156,13 @@ func (C08) Gen(r *simrt.RNG, tier string) core.Case {
 		if r.Chance(1, 4) { // bidirectional pair
 			rev := world.Party{InForm: world.FormPositional, OutForm: world.FormPositional, In: []world.Slot{{Label: world.Label{Type: to}}}, Out: []world.Slot{{Label: world.Label{Type: from}}}}
 			w.Parties = append(w.Parties, rev)
+			addArg(world.ArgSpec{Kind: world.ArgConv, Party: len(w.Parties) - 1})
+		}
+	}
+	if ifaceImpl >= 0 {
+		from := univ[r.Intn(nt)]
+		if from != ifaceImpl && from != world.SliceDef {
+			w.Parties = append(w.Parties, world.Party{InForm: world.FormPositional, OutForm: world.FormPositional, In: []world.Slot{{Label: world.Label{Type: from}}}, Out: []world.Slot{{Label: world.Label{Type: ifaceImpl}}}, HasErr: r.Bool()})
 			addArg(world.ArgSpec{Kind: world.ArgConv, Party: len(w.Parties) - 1})
 		}
 	}
@@ -161,6 +204,10 @@ func (C08) Gen(r *simrt.RNG, tier string) core.Case {
 					a.Filter = append(a.Filter, s.Type)
 				}
 			}
+		}
+		if ifaceImpl >= 0 && r.Chance(1, 2) && !seen[ifaceImpl] {
+			seen[ifaceImpl] = true
+			a.Filter = append(a.Filter, ifaceImpl)
 		}
 		if univ[0] == world.SliceDef && r.Chance(1, 2) {
 			seen[world.SliceRaw] = true
@@ -223,7 +270,7 @@ func (C08) Gen(r *simrt.RNG, tier string) core.Case {
 		if r.Chance(4, 5) {
 			ra = append(ra, mkFilter(world.ArgFilterIn))
 		}
-		if r.Chance(1, 4) {
+		if r.Chance(1, 4) || (t.OutForm != world.FormPositional && r.Bool()) {
 			ra = append(ra, mkFilter(world.ArgFilterOut))
 		}
 		w.Ops = append(w.Ops, world.Op{Kind: world.OpRedefine, Target: 0, Args: ra})
@@ -257,6 +304,15 @@ func c08Valid(w world.World) bool {
 			return false
 		}
 		for _, s := range p.In {
+			if pi == 0 && world.IsIface(s.Type) && s.Type != world.ErrIface && s.Sub == "" {
+				if s.Name != "" {
+					if t, ok := nameType[s.Name]; ok && t != s.Type {
+						return false
+					}
+					nameType[s.Name] = s.Type
+				}
+				continue
+			}
 			if !okLabel(s.Label) {
 				return false
 			}
